@@ -248,6 +248,13 @@ def _v_kruskal_final_return_deleted(tree):
     g.body = g.body[:-1] + [ast.Pass()]
 
 
+def _v_prim_start_sentinel(tree):
+    g = M.find_func(tree, "prim")
+    tree.body.insert(tree.body.index(M.find_func(tree, "kruskal")), M.stmts("_UNSET = object()")[0])
+    g.args.kw_defaults[0] = M.expr("_UNSET")
+    M.replace_expr(g, lambda e: M.src_is(e, "start is None"), M.expr("start is _UNSET"))
+
+
 def _v_prim_no_tiebreak(tree):
     g = M.find_func(tree, "prim")
     M.replace_expr(g, lambda e: isinstance(e, ast.Tuple) and len(e.elts) == 4 and M.src_is(e.elts[1], "counter"), lambda e: ast.Tuple(elts=[e.elts[0], e.elts[2], e.elts[3]], ctx=ast.Load()), count=2)
@@ -316,6 +323,7 @@ VARIANTS = [
     M.Variant("kruskal's tree list is never initialised", MS, _v_kruskal_init_deleted, "C13-G5"),
     M.Variant("kruskal's final return is missing", MS, _v_kruskal_final_return_deleted, "C13-G6"),
     M.Variant("prim drops the tie-breaking counter from its heap entries (seed C13-H)", MS, _v_prim_no_tiebreak, "C13-O2"),
+    M.Variant("prim's `start` defaults to a private sentinel, so an explicit None becomes a node label (seed C13-J)", MS, _v_prim_start_sentinel, "C13-G9"),
     M.Variant("check_positive rejects the value 1", "solvor/utils/validate.py", _v_validator_rejects_one, "C13-G7"),
     M.Variant("Result defaults to FEASIBLE", "solvor/types.py", _v_result_default_status, "C13-G7"),
     M.Variant("twin: reformat", MS, _t_reformat, None),
